@@ -80,6 +80,7 @@ type c05Case struct {
 	Fee     string     `json:"fee,omitempty"`
 	Imb     int64      `json:"oracle_usdc_permille,omitempty"` // app: initial USDC side of the oracle pool
 	Ops     []c05AppOp `json:"ops,omitempty"`
+	Wb      []string   `json:"wb,omitempty"` // ojoin / oexit: amm params multiplier, exponent, portion, threshold (raw); empty = defaults
 }
 
 func c05Den(i int) string { return fmt.Sprintf("denom%d", i) }
@@ -257,7 +258,7 @@ func (k c05Chk) exitCommon(R, R2, outs []*big.Int, S, S2, sh *big.Int, form stri
 
 func c05Pure(col *Collector, c c05Case) string {
 	ctx := sdk.Context{}
-	params := ammtypes.DefaultParams()
+	params := c05WbfParams(c)
 	R, S := bigs(c.R), c05Big(c.S)
 	chk := c05Chk{col: col, c: c}
 	id := c.ID
@@ -708,6 +709,9 @@ func c05PureGen(r *Rng, id int) c05Case {
 		c.Fee = []string{"0", "0.003", "0.01", "0.1"}[r.Intn(4)]
 	}
 	c.R, c.S = strs(R), S.String()
+	if c.Kind == "ojoin" || c.Kind == "oexit" {
+		c05WbfGen(r, &c)
+	}
 	return c
 }
 
@@ -1097,7 +1101,16 @@ func TestC05(t *testing.T) {
 			col.Sample(c)
 			return
 		}
-		if txt := c05Pure(col, c); txt != "" {
+		txt := c05Pure(col, c)
+		if c.Kind == "ojoin" || c.Kind == "oexit" { // the same operation with the weight-breaking fee computed by the model
+			if w := c05WbfCase(col, c); w != "" {
+				if txt != "" {
+					txt += ";\n"
+				}
+				txt += w
+			}
+		}
+		if txt != "" {
 			col.Case(i, txt)
 		}
 	})
